@@ -16,7 +16,7 @@ from ..common import rng_for, split
 from ..oracle import scales_ref as R
 
 LEVEL = "exploration"
-TECHNIQUE = "runtime monitor on the real scale methods: online reference-model oracle + offline trace checker (monotonicity, round trip, continuity)"
+TECHNIQUE = "runtime monitor on the real scale methods: online reference-model oracle + offline trace checker (monotonicity, round trip, continuity); ambient-settings monitor (stateless calls repeated under -W error and np.errstate raise)"
 RULE = (
     "probes: seeded log-uniform/uniform/integer/special-point frequencies in [0,1e5] Hz (from low_hz for octave) and "
     "scale values in the image, per (class, parameters); every monitored call is one evaluation; a probe is "
